@@ -52,7 +52,7 @@ def sites_with_path(body, pred=None):
                     if s.get("init") is not None:
                         go(s["init"], path + [f])
                     if s.get("els") is not None:
-                        go(s["els"], path + [f])
+                        go(s["els"], path + [f, Frame("letelse", s)])
                 elif s["k"] in ("Expr", "Semi"):
                     go(s["e"], path + [f])
             if n.get("expr") is not None:
@@ -679,6 +679,17 @@ def explicit_panics(ctx, rid, crates, G):
                 arms = [fr for fr in path if fr.kind == "arm"]
                 key = "%s#%s%d" % (fname.replace("blots_core::", ""), node["name"], k_)
                 k_ += 1
+                # the macro is what a construct *inside* the arm falls into (`let [a, b] = args.as_slice() else { unreachable!() }`, an `if`):
+                # then it is not the arm that has to be unreachable but that inner test that has to be irrefutable
+                inner = [fr for fr in path[(path.index(arms[-1]) + 1) if arms else 0:] if fr.kind in ("letelse", "if")]
+                if inner:
+                    fr_ = inner[-1]
+                    if fr_.kind == "letelse":
+                        v_, d_ = letelse_discharge(cr, crates, fname, fr_.node, path)
+                        ctx.inst(rid, key, v_, d_, H.loc(node))
+                    else:
+                        ctx.inst(rid, key, None, "a %s! under a condition inside the arm: the condition's impossibility is not modelled" % node["name"], H.loc(node))
+                    continue
                 if not arms:
                     ctx.inst(rid, key, None, "a %s! that is not inside a match arm: not modelled" % node["name"], H.loc(node))
                     continue
@@ -1247,3 +1258,37 @@ def driver_text_untouched(ctx, rid, crates):
             ctx.inst(rid, "%s#formatted-text-untouched" % name.replace("blots_core::", ""), not bad, "output buffers %s; rewriting operations applied to them: %s" % (sorted(buffers), bad or "none"), H.loc(f["body"]))
     if n == 0:
         ctx.inst(rid, "drivers", None, "no format driver with an output buffer was found", None)
+
+
+def letelse_discharge(cr, crates, fname, let_stmt, path):
+    """`let [a, b] = args.as_slice() else { panic }` inside a built-in arm: irrefutable when the arm's arity row fixes the number of
+    arguments the slice pattern expects"""
+    pat = let_stmt["pat"]
+    while H.kind(pat) == "Ref":
+        pat = pat["pat"]
+    if H.kind(pat) != "Slice":
+        return None, "a panic in the else-branch of a `let .. else` whose pattern is not a slice pattern: not modelled"
+    n_before = len(pat.get("before") or pat.get("pats") or [])
+    has_rest = pat.get("mid") is not None or bool(pat.get("after"))
+    n_fixed = n_before + len(pat.get("after") or [])
+    init_ty = (H.strip(let_stmt["init"]).get("ty") or "")
+    if "values::Value" not in init_ty:
+        return None, "slice pattern over something other than the argument vector: not modelled"
+    variants = set()
+    for fr in path:
+        if fr.kind == "arm":
+            variants |= {H.last(v) for v in H.pat_variants(fr.node["arms"][fr.extra]["pat"]) if "functions::BuiltInFunction::" in v}
+    if not variants:
+        return None, "not inside an arm of the built-in dispatch"
+    from rules.c01 import arity_table
+    ar = arity_table(crates[0])
+    bad = []
+    for v in sorted(variants):
+        row = ar.get(v)
+        if row is None:
+            return None, "no arity row for %s" % v
+        kind, lo, hi = row
+        ok = (kind == "Exact" and lo == n_fixed and not has_rest) or (has_rest and lo is not None and lo >= n_fixed and kind in ("Exact", "AtLeast", "Between"))
+        if not ok:
+            bad.append("%s: arity %s, pattern takes %s%d" % (v, row, ">= " if has_rest else "", n_fixed))
+    return (not bad), "the slice pattern matches every argument vector the arity check lets through: %s" % (bad or "yes")
